@@ -162,6 +162,7 @@ static void gen_popen(int tier)
 			G->obj[c].p[5] = P(15) ? 1 : 0;
 			G->obj[p].p[0] = P(50);
 			G->obj[p].p[1] = c;
+			G->obj[p].p[2] = P(12);	/* a really forked and exec'd child: checks the wiring of its standard streams */
 			if (r < 70) {
 				gx_add_op(CTX_SETUP, t, 0, OP_REG, p, 0, 0, 0);
 			}
